@@ -44,25 +44,32 @@ def rhs5 (pk : Bool) (ps imp : List String) (e : X.Expr) : Bool :=
 def cond5 (pk : Bool) (ps imp : List String) (e : X.Expr) : Bool :=
   pureE e || (pk && ppE ps imp e)
 
+/-- A name the constants `ρ` make a system-call number. -/
+def valSys (ρ : String → Option Word) (f : String) : Bool :=
+  match ρ f with
+  | some w => decide (w.toNat < 3)
+  | none => false
+
 mutual
-/-- The statements of stage (4), with calls of pure functions in operands if `pk`. -/
-def okS5 (pk : Bool) (ps imp : List String) : X.Stmt → Bool
+/-- The statements of stage (4), with calls of pure functions in operands if `pk`; `ρ` are the
+    global constants (a call through a constant is a system call). -/
+def okS5 (pk : Bool) (ps imp : List String) (ρ : String → Option Word) : X.Stmt → Bool
   | .skip | .stop => true
   | .ret e => rhs5 pk ps imp e
-  | .ite c t e => cond5 pk ps imp c && okS5 pk ps imp t && okS5 pk ps imp e
-  | .while c b => cond5 pk ps imp c && okS5 pk ps imp b
-  | .seq ss => okS5L pk ps imp ss
+  | .ite c t e => cond5 pk ps imp c && okS5 pk ps imp ρ t && okS5 pk ps imp ρ e
+  | .while c b => cond5 pk ps imp c && okS5 pk ps imp ρ b
+  | .seq ss => okS5L pk ps imp ρ ss
   | .assign _ e => rhs5 pk ps imp e
   | .syscall id args => decide (id < 3) && args.all pureE
-  | .call f args => ps.contains f && args.all pureE
+  | .call f args => (ps.contains f || valSys ρ f) && args.all pureE
   | .assignSub _ i e => pureE i && pureE e
-def okS5L (pk : Bool) (ps imp : List String) : List X.Stmt → Bool
+def okS5L (pk : Bool) (ps imp : List String) (ρ : String → Option Word) : List X.Stmt → Bool
   | [] => true
-  | s :: ss => okS5 pk ps imp s && okS5L pk ps imp ss
+  | s :: ss => okS5 pk ps imp ρ s && okS5L pk ps imp ρ ss
 end
 
 mutual
-theorem okS4_okS5 (pk : Bool) (ps imp : List String) : (s : X.Stmt) → okS4 ps s = true → okS5 pk ps imp s = true
+theorem okS4_okS5 (pk : Bool) (ps imp : List String) (ρ : String → Option Word) : (s : X.Stmt) → okS4 ps s = true → okS5 pk ps imp ρ s = true
   | .skip, _ => rfl
   | .stop, _ => rfl
   | .ret e, h => by
@@ -76,24 +83,27 @@ theorem okS4_okS5 (pk : Bool) (ps imp : List String) : (s : X.Stmt) → okS4 ps 
   | .ite c t e, h => by
     simp only [okS4, Bool.and_eq_true] at h
     simp only [okS5, cond5, Bool.and_eq_true, Bool.or_eq_true]
-    exact ⟨⟨Or.inl h.1.1, okS4_okS5 pk ps imp t h.1.2⟩, okS4_okS5 pk ps imp e h.2⟩
+    exact ⟨⟨Or.inl h.1.1, okS4_okS5 pk ps imp ρ t h.1.2⟩, okS4_okS5 pk ps imp ρ e h.2⟩
   | .while c b, h => by
     simp only [okS4, Bool.and_eq_true] at h
     simp only [okS5, cond5, Bool.and_eq_true, Bool.or_eq_true]
-    exact ⟨Or.inl h.1, okS4_okS5 pk ps imp b h.2⟩
+    exact ⟨Or.inl h.1, okS4_okS5 pk ps imp ρ b h.2⟩
   | .seq ss, h => by
     simp only [okS4] at h
     simp only [okS5]
-    exact okS4L_okS5L pk ps imp ss h
+    exact okS4L_okS5L pk ps imp ρ ss h
   | .syscall _ _, h => by simp only [okS4] at h; simp only [okS5]; exact h
-  | .call _ _, h => by simp only [okS4] at h; simp only [okS5]; exact h
+  | .call _ _, h => by
+    simp only [okS4, Bool.and_eq_true] at h
+    simp only [okS5, Bool.and_eq_true, Bool.or_eq_true]
+    exact ⟨Or.inl h.1, h.2⟩
   | .assignSub _ _ _, h => by simp only [okS4] at h; simp only [okS5]; exact h
-theorem okS4L_okS5L (pk : Bool) (ps imp : List String) : (ss : List X.Stmt) → okS4L ps ss = true → okS5L pk ps imp ss = true
+theorem okS4L_okS5L (pk : Bool) (ps imp : List String) (ρ : String → Option Word) : (ss : List X.Stmt) → okS4L ps ss = true → okS5L pk ps imp ρ ss = true
   | [], _ => rfl
   | s :: ss, h => by
     simp only [okS4L, Bool.and_eq_true] at h
     simp only [okS5L, Bool.and_eq_true]
-    exact ⟨okS4_okS5 pk ps imp s h.1, okS4L_okS5L pk ps imp ss h.2⟩
+    exact ⟨okS4_okS5 pk ps imp ρ s h.1, okS4L_okS5L pk ps imp ρ ss h.2⟩
 end
 
 /-- `val` and `array` formals. -/
@@ -223,7 +233,7 @@ structure GCtx.OK (G : GCtx) : Prop where
   nl_ok : ∀ pi ∈ G.procs, pi.p.locals.length ≤ pi.gs1.offset
   consts_ok : ∀ pi ∈ G.procs, ∀ e ∈ pi.gs2.constMap, e ∈ G.consts
   smax_ok : ∀ pi ∈ G.procs, G.S pi ≤ G.smax
-  body_ok : ∀ pi ∈ G.procs, okS5 G.pk G.pnames G.xc.impure pi.p.body = true
+  body_ok : ∀ pi ∈ G.procs, okS5 G.pk G.pnames G.xc.impure G.rho pi.p.body = true
   pure_ok : G.pk = true → PureOk G.xc
   formals_ok : ∀ pi ∈ G.procs, pi.p.formals.all isVAFormal = true
   locals_var : ∀ pi ∈ G.procs, pi.p.locals.all isVarDecl = true
